@@ -62,8 +62,8 @@ class _CommentClaimer(Generic[_M]):
         self._model = model
         self._comments_to_claim = (
             {id(comment) for comment in comments} if comments is not None else _Universe())
-        # Comments named by the caller are looked for beyond the owner's span too: when the list ends its owner (a posting,
-        # an entry built without a dedent mark), a comment released from the end of the list lies right behind both.
+        # Comments named by the caller may lie right behind the owner: when the list ends its owner (a posting, an entry
+        # built without a dedent mark), a comment released from the end of the list lies behind both (see _find_outer).
         self._explicit = comments is not None
 
     def _find_inner(self) -> Iterator[_M | BlockComment]:
@@ -97,12 +97,23 @@ class _CommentClaimer(Generic[_M]):
             limit: base.RawTokenModel,
     ) -> Iterator[BlockComment]:
         prev, token = start, succ(start)
-        while (prev is not limit or self._explicit) and token is not None:
-            if isinstance(token, Newline | Whitespace) or not token.raw_text:
+        # Only when the list ends its owner are named comments looked for behind it, and then no further than
+        # the end of the enclosing body or a blank line: a comment released from the end of the list lies right there.
+        beyond = self._explicit and start is limit
+        newlines = 0
+        while (prev is not limit or beyond) and token is not None:
+            if beyond and type(token).RULE == 'DEDENT_MARK':
+                break
+            if isinstance(token, Newline):
+                newlines += 1
+                if beyond and newlines > 1:
+                    break
+            elif isinstance(token, Whitespace) or not token.raw_text:
                 pass
             elif isinstance(token, BlockComment):
                 if token.claimed:
                     break
+                newlines = 0
                 if id(token) in self._comments_to_claim:
                     self._comments_to_claim.discard(id(token))
                     yield token
